@@ -29,7 +29,9 @@ def bounds(tier):
 def gen_cases(tier, seed):
     mx = 3 if tier == 'quick' else 4
     for n in range(1, mx + 1):
-        for vec in itertools.product(B, repeat=n):
+        # the longest vectors of the thorough tier use the five behaviours that drive the worker protocol differently
+        alphabet = B if not (tier == 'thorough' and n == mx) else ['equal', 'exit', 'hang', 'late', 'late_unkillable']
+        for vec in itertools.product(alphabet, repeat=n):
             for recycle in (1, 2, 3):
                 for timeout in (0, 1, 3, 0.5):
                     if n == mx and tier == 'thorough' and (recycle, timeout) not in ((1, 1), (2, 1), (2, 3), (3, 0), (2, 0.5)):
